@@ -36,8 +36,12 @@ def destination(lat, lon, dist_nm, brg):
 
 @st.composite
 def s_surface(draw):
-    kind = draw(st.sampled_from(["any", "any", "equator", "meridian", "both"]))
+    kind = draw(st.sampled_from(["any", "any", "equator", "meridian", "both", "polar", "polar"]))
     lat1, lon1, lat2, lon2 = draw(cg.near_pairs(0.2))
+    if kind == "polar":
+        # a target within a degree or so of a pole: 45 NM then span tens of degrees of longitude
+        lat1 = draw(st.sampled_from([1, -1])) * draw(st.one_of(gen.ufloat(88.3, 89.95), gen.ufloat(88.9, 89.95)))
+        lat2, lon2 = lat1, lon1
     if kind in ("equator", "both"):
         dl = lat2 - lat1
         lat1 = draw(gen.ufloat(-0.7, 0.7))
@@ -57,6 +61,8 @@ def s_surface(draw):
         corner = draw(st.sampled_from([0, 0, 0x7FFF]))
     t0, t1 = draw(cg.TIMES)
     rd = draw(st.one_of(gen.ufloat(0, 44.5), gen.ufloat(0, 44.5), st.sampled_from([0.0, 44.5, 12.0])))
+    if kind == "polar":
+        rd = draw(st.one_of(gen.ufloat(43.8, 44.85), gen.ufloat(43.8, 44.85), gen.ufloat(40.0, 44.8), gen.ufloat(0, 44.8)))
     rb = draw(st.one_of(gen.ufloat(0, 360), gen.ufloat(0, 360), st.sampled_from([0.0, 90.0, 180.0, 270.0])))
     return {"lat0": lat1, "lon0": lon1, "lat1": lat2, "lon1": lon2, "t0": t0, "t1": t1, "rdist": rd, "rbrg": rb,
             "tc0": draw(st.integers(5, 8)), "tc1": draw(st.integers(5, 8)), "noref": draw(gen.uint(0, 29)) == 0, "as_datetime": draw(st.sampled_from([0, 0, 0, 1, 2, 3, 4, 4])), "hc": draw(gen.hexcase), "int_receiver": draw(gen.uint(0, 5)) == 0,
